@@ -71,10 +71,18 @@ var c18CTypes = []string{
 	"application/json", "application/json; charset=utf-8",
 	"application/xml", "text/xml", "text/xml; charset=utf-8",
 	"", "text/plain", "application/octet-stream", "text/html", "application/x-yaml", "image/png",
+	// unsupported types whose sub-type is spelled like the name of a registered binder
+	"application/query", "application/x-query; charset=utf-8", "text/query", "application/form", "application/x-form", "application/header", "application/x-header", "text/form-urlencoded",
+}
+
+// a struct whose field is spelled differently in every source
+type c18Tags struct {
+	XMLName xml.Name `xml:"t" json:"-" query:"-" form:"-" header:"-"`
+	A       string   `query:"qa" form:"fa" json:"ja" xml:"xa" header:"Ha"`
 }
 
 type c18Case struct {
-	Kind   string `json:"kind"` // table | roundtrip | malformed | validator
+	Kind   string `json:"kind"` // table | roundtrip | malformed | validator | tags
 	Method string `json:"method,omitempty"`
 	Format string `json:"format,omitempty"`
 	First  int    `json:"first,omitempty"`
@@ -85,6 +93,7 @@ func c18Gen(tier string, emit func(c18Case)) {
 	for _, m := range c18Methods {
 		emit(c18Case{Kind: "table", Method: m})
 	}
+	emit(c18Case{Kind: "tags", MaxLen: map[string]int{"quick": 3, "thorough": 4}[tier]})
 	for _, f := range []string{"query", "form", "multipart", "json", "xml"} {
 		emit(c18Case{Kind: "roundtrip", Format: f})
 		emit(c18Case{Kind: "validator", Format: f})
@@ -148,6 +157,69 @@ func c18Run(c c18Case, st *fw.Stats) []fw.Viol {
 		}
 	}
 	switch c.Kind {
+	case "tags":
+		// every sequence of <= MaxLen binds over the six sources, in one process: each bind reads the field under the
+		// name its own source's tag gives it, whatever was bound before
+		kinds := []string{"query", "form", "multipart", "json", "xml", "header"}
+		bindOne := func(k string) (string, error, any) {
+			var obj c18Tags
+			var err error
+			var req *http.Request
+			switch k {
+			case "query":
+				req = httptest.NewRequest("GET", "/x?qa=from-query", nil)
+			case "form":
+				req = httptest.NewRequest("POST", "/x?qa=from-query", strings.NewReader("fa=from-form"))
+				req.Header.Set("Content-Type", "application/x-www-form-urlencoded")
+			case "multipart":
+				req = httptest.NewRequest("POST", "/x", strings.NewReader(c18MultipartBody([][2]string{{"fa", "from-multipart"}})))
+				req.Header.Set("Content-Type", "multipart/form-data; boundary=BOUNDARY")
+			case "json":
+				req = httptest.NewRequest("POST", "/x", strings.NewReader(`{"ja":"from-json"}`))
+				req.Header.Set("Content-Type", "application/json")
+			case "xml":
+				req = httptest.NewRequest("POST", "/x", strings.NewReader(`<t><xa>from-xml</xa></t>`))
+				req.Header.Set("Content-Type", "application/xml")
+			case "header":
+				req = httptest.NewRequest("GET", "/x", nil)
+				req.Header = http.Header{"Ha": []string{"from-header"}}
+			}
+			pv := try(func() {
+				if k == "header" {
+					err = binding.Header.Bind(req, &obj)
+				} else {
+					err = binding.Auto(req, &obj)
+				}
+			})
+			return obj.A, err, pv
+		}
+		var rec func(seq []string)
+		rec = func(seq []string) {
+			if len(seq) > 0 {
+				st.Evals++
+				if len(seq) > 1 {
+					st.Nontrivial++
+				}
+				k := seq[len(seq)-1]
+				for _, earlier := range seq[:len(seq)-1] {
+					bindOne(earlier)
+				}
+				got, err, pv := bindOne(k)
+				if pv != nil {
+					add("tags:panic", fmt.Sprintf("bind sequence %v: the last bind panicked: %v", seq, pv))
+				} else if err != nil || got != "from-"+k {
+					add("tags:wrong-field-name", fmt.Sprintf("bind sequence %v (one process): the %s bind yielded A=%q err=%v; the field is named by the %s tag and the source carries %q", seq, k, got, err, k, "from-"+k))
+				}
+			}
+			if len(seq) == c.MaxLen {
+				return
+			}
+			for _, k := range kinds {
+				rec(append(append([]string(nil), seq...), k))
+			}
+		}
+		// (package-level state of the binding package is not reset between sequences: they all run in this process)
+		rec(nil)
 	case "table":
 		for _, ct := range c18CTypes {
 			for _, withQuery := range []bool{true, false} {
@@ -499,7 +571,7 @@ var c18Spec = fw.Spec[c18Case]{
 	ID:      "C18",
 	Level:   "model_checking",
 	Workers: 1,
-	Rule: "complete enumeration: decision table 9 methods x 14 Content-Type strings x query present/absent, every source carrying a different value; round trip of all values of a struct over int{0,1,-7,2^31} x 9 strings (unicode, separators, markup, quotes) x bool x 4 int slices through query / urlencoded / multipart / JSON / XML; all byte strings of length <=4 (thorough 5) over 14 bytes as body per format (must not panic; malformed JSON/XML must yield an error); validator on/off x 24 values on both sides of each rule; " +
+	Rule: "complete enumeration: decision table 9 methods x 22 Content-Type strings (the unsupported ones include sub-types spelled like registered binder names) x query present/absent, every source carrying a different value; all sequences of <=3 (thorough 4) binds over 6 sources of a struct whose field has a different name in every source's tag; round trip of all values of a struct over int{0,1,-7,2^31} x 9 strings (unicode, separators, markup, quotes) x bool x 4 int slices through query / urlencoded / multipart / JSON / XML; all byte strings of length <=4 (thorough 5) over 14 bytes as body per format (must not panic; malformed JSON/XML must yield an error); validator on/off x 24 values on both sides of each rule; " +
 		"non-trivial = a table row / a round-tripped value / a malformed body",
 	Assume: []string{"media types that merely contain a canonical subtype as a substring (application/jsonp) are outside the alphabet", "runs single-threaded: the validator switch is package-global", "encoding/json and encoding/xml decide what 'malformed' means"},
 	Bounds: func(tier string) map[string]any {
